@@ -314,6 +314,63 @@ def lkey(l):
     return repr(int(l)) if isinstance(l, np.integer) else repr(l)
 
 
+def vector_checks(h, tag, lin, qd, off, strict):
+    """to_numpy_vectors with every option combination against linear / quadratic of the same handle:
+    every (row label, col label, bias) is an interaction with that bias, each interaction exactly once,
+    ldata in the order of the returned / requested labels.  Returns a message or None."""
+    K = lkey
+    vs = [v for v, _ in lin]
+    lind = {K(v): b for v, b in lin}
+    orders = [None]
+    if len(vs) >= 2:
+        orders += [list(reversed(vs)), vs[1:] + vs[:1]]
+    for order in orders:
+        for sort_indices in (False, True):
+            for sort_labels in (False, True):
+                for return_labels in (True, False):
+                    if not return_labels and order is None and sort_labels:
+                        continue          # the label order is not observable then
+                    opts = f"{tag}to_numpy_vectors(variable_order={order!r}, sort_indices={sort_indices}, sort_labels={sort_labels}, return_labels={return_labels})"
+                    try:
+                        vec = h.to_numpy_vectors(variable_order=order, sort_indices=sort_indices, sort_labels=sort_labels,
+                                                 return_labels=return_labels)
+                    except Exception as e:   # noqa
+                        return f"{opts} raised {type(e).__name__}: {e}"
+                    if return_labels:
+                        ld, (ir, ic, qv), o, labs = vec
+                        labs = list(labs)
+                    else:
+                        ld, (ir, ic, qv), o = vec
+                        labs = list(order) if order is not None else list(vs)
+                    if order is not None and [K(x) for x in labs] != [K(x) for x in order]:
+                        return f"{opts}: labels {labs!r} are not the requested order"
+                    if sorted(map(K, labs)) != sorted(map(K, vs)) or len(ld) != len(vs):
+                        return f"{opts}: labels {labs!r} differ from variables {vs!r}"
+                    if order is None and not sort_labels and [K(x) for x in labs] != [K(x) for x in vs]:
+                        return f"{opts}: labels {labs!r} are not in variable order {vs!r}"
+                    if [F(x) for x in ld] != [lind[K(l)] for l in labs]:
+                        return f"{opts}: linear vector {[str(F(x)) for x in ld]} is not linear in label order {labs!r}"
+                    if not (len(ir) == len(ic) == len(qv) == len(qd)):
+                        return f"{opts}: {len(qv)} quadratic entries for {len(qd)} interactions"
+                    seen = set()
+                    for r, c, x in zip(ir, ic, qv):
+                        r, c = int(r), int(c)
+                        if not (0 <= r < len(labs) and 0 <= c < len(labs)):
+                            return f"{opts}: index out of range"
+                        k = frozenset((K(labs[r]), K(labs[c])))
+                        if k in seen:
+                            return f"{opts}: interaction {(labs[r], labs[c])!r} listed twice"
+                        seen.add(k)
+                        if k not in qd:
+                            return f"{opts}: {(labs[r], labs[c])!r} is not an interaction"
+                        if F(x) != qd[k]:
+                            return f"{opts}: bias {F(x)} for {(labs[r], labs[c])!r} but quadratic says {qd[k]}"
+                    if F(o) != off and (strict or np.asarray(ld).dtype.kind == 'f'):
+                        # not strict: the python fallback casts the offset to the dtype of the linear vector (reported defect d7)
+                        return f"{opts}: offset {F(o)} differs from offset {off}"
+    return None
+
+
 def observe(m, strict=True):
     """-> (dump dict, py_fail or None): dump uses exact Fractions; all read paths cross-checked"""
     vs = list(m.variables)
@@ -387,20 +444,28 @@ def observe(m, strict=True):
         if d != len(nb) or len(adj[v]) != d:
             bad(f"degree({v!r}) = {d} but adj has {len(nb)} neighbours")
     if not is_qm(m):
-        try:
-            vec = m.to_numpy_vectors(return_labels=True)
-            ld, (ir, ic, qv), o, labs = vec
-            if sorted(map(K, labs)) != sorted(map(K, vs)) or len(ld) != len(vs):
-                bad("to_numpy_vectors labels differ from variables")
-            elif {K(l): F(x) for l, x in zip(labs, ld)} != {K(v): b for v, b in lin}:
-                bad("to_numpy_vectors linear differs from linear")
-            elif {frozenset((K(labs[int(r)]), K(labs[int(c)]))): F(x) for r, c, x in zip(ir, ic, qv)} != qd or len(qv) != nint:
-                bad("to_numpy_vectors quadratic differs from quadratic")
-            elif F(o) != off and (strict or np.asarray(ld).dtype.kind == 'f'):
-                # not strict: object back-end casts the offset to the dtype of the linear vector (reported defect)
-                bad("to_numpy_vectors offset differs from offset")
-        except Exception as e:   # noqa
-            bad(f"to_numpy_vectors raised {type(e).__name__}: {e}")
+        msg = vector_checks(m, "", [(v, b) for v, b in lin], qd, off, strict)
+        if msg:
+            bad(msg)
+        # the same read path through the .spin / .binary handles, against the handle's own linear / quadratic
+        for hname in ("spin", "binary"):
+            hv = getattr(m, hname)
+            if hv is m:
+                continue
+            try:
+                hlin = [(v, F(b)) for v, b in hv.linear.items()]
+                hqd = {}
+                for (u, v), b in hv.quadratic.items():
+                    hqd[frozenset((K(u), K(v)))] = F(b)
+                hoff = F(hv.offset)
+            except Exception as e:   # noqa
+                bad(f".{hname} handle: reading linear/quadratic raised {type(e).__name__}: {e}")
+                continue
+            if len(hqd) != nint or [K(v) for v, _ in hlin] != [K(v) for v in vs]:
+                bad(f".{hname} handle lists other variables / interactions than the base")
+            msg = vector_checks(hv, f".{hname} handle: ", hlin, hqd, hoff, strict)
+            if msg:
+                bad(msg)
     return {"info": info, "lin": lin, "quad": quad, "off": off, "deg": deg, "nint": nint, "nvar": nvar, "islin": islin}, fail
 
 
